@@ -15,6 +15,7 @@ import (
 	"bufio"
 	"bytes"
 	"encoding/binary"
+	"encoding/hex"
 	"encoding/json"
 	"fmt"
 	"io"
@@ -423,6 +424,10 @@ func TestVerifC10Crash(t *testing.T) {
 		"backstop: a child that logs no new index for 180 s of wall time is killed and the input skipped (counter stalled_inputs_skipped)")
 
 	corpus := verifkreq.Corpus(r.Rand(0), verifkreq.CorpusSizes{Thorough: r.Thorough()})
+	replaying := false
+	if in, ok := c10ReplayInput("crash"); ok { // bin/check C10 --replay <witness>: only that client stream
+		corpus, replaying = []verifkreq.Input{in}, true
+	}
 	dir := os.Getenv("VERIF_SCRATCH")
 	if dir == "" {
 		dir = t.TempDir()
@@ -539,7 +544,7 @@ func TestVerifC10Crash(t *testing.T) {
 					tail = tail[:3000]
 				}
 				rec := map[string]any{"corpus_index": index[w][last], "kind": shards[w][last].Kind, "input_hex": fmt.Sprintf("%x", c10Clip(shards[w][last].Bytes, 4096)),
-					"chunk_seed": shards[w][last].Chunk, "exit": fmt.Sprint(runErr), "child_output": tail}
+					"chunk_seed": fmt.Sprint(shards[w][last].Chunk), "exit": fmt.Sprint(runErr), "child_output": tail}
 				if _, err := os.Stat(base + ".slow"); err == nil {
 					o.slow++
 					if len(o.slowSamples) < 3 {
@@ -587,7 +592,7 @@ func TestVerifC10Crash(t *testing.T) {
 			in := shards[w][e.Index]
 			switch {
 			case e.Problem != "":
-				r.Violation("inconsistent_result", e.Problem, map[string]any{"input_hex": fmt.Sprintf("%x", in.Bytes), "kind": in.Kind, "chunk_seed": in.Chunk, "corpus_index": index[w][e.Index]})
+				r.Violation("inconsistent_result", e.Problem, map[string]any{"input_hex": fmt.Sprintf("%x", in.Bytes), "kind": in.Kind, "chunk_seed": fmt.Sprint(in.Chunk), "corpus_index": index[w][e.Index]})
 			case e.Alloc != 0:
 				r.Count("huge_alloc_calls", 1)
 				r.Note(fmt.Sprintf("huge_alloc_input_%d", index[w][e.Index]), map[string]any{"announced_size": verifkreq.DeclaredLen(in.Bytes), "bytes_allocated": e.Alloc, "bytes_sent": len(in.Bytes)})
@@ -595,7 +600,7 @@ func TestVerifC10Crash(t *testing.T) {
 				class := c10Classify(e.Payload, e.Msg, e.Stack)
 				r.Count("panics", 1)
 				r.Violation(class, fmt.Sprintf("%s panicked on a %d-byte client stream (%s): %s", e.Call, len(in.Bytes), in.Kind, e.Msg),
-					map[string]any{"input_hex": fmt.Sprintf("%x", in.Bytes), "kind": in.Kind, "chunk_seed": in.Chunk, "frame_index": e.Frame, "payload_hex": fmt.Sprintf("%x", e.Payload), "panic": e.Msg, "stack": e.Stack, "corpus_index": index[w][e.Index]})
+					map[string]any{"input_hex": fmt.Sprintf("%x", in.Bytes), "kind": in.Kind, "chunk_seed": fmt.Sprint(in.Chunk), "frame_index": e.Frame, "payload_hex": fmt.Sprintf("%x", e.Payload), "panic": e.Msg, "stack": e.Stack, "corpus_index": index[w][e.Index]})
 			}
 		}
 		for _, d := range o.deaths {
@@ -623,9 +628,31 @@ func TestVerifC10Crash(t *testing.T) {
 		j := (i*7919 + 13) % len(corpus)
 		r.Sample(map[string]any{"kind": corpus[j].Kind, "input_hex": fmt.Sprintf("%x", c10Clip(corpus[j].Bytes, 96))})
 	}
-	r.Floor("reached_parser", 1000)
-	r.Floor("stage_parsed", 200)
-	r.Floor("kind_hdr_tags", 100)
+	if !replaying {
+		r.Floor("reached_parser", 1000)
+		r.Floor("stage_parsed", 200)
+		r.Floor("kind_hdr_tags", 100)
+	}
+}
+
+// c10ReplayInput extracts the client stream of a witness written by this leg (VERIF_REPLAY).
+func c10ReplayInput(leg string) (verifkreq.Input, bool) {
+	rp := verifkit.Replay()
+	if rp == nil || rp["leg"] != leg {
+		return verifkreq.Input{}, false
+	}
+	w, _ := rp["replay"].(map[string]any)
+	hx, _ := w["input_hex"].(string)
+	b, err := hex.DecodeString(hx)
+	if err != nil || len(b) == 0 {
+		return verifkreq.Input{}, false
+	}
+	in := verifkreq.Input{Kind: "replay", Bytes: b}
+	if k, ok := w["kind"].(string); ok {
+		in.Kind = k
+	}
+	fmt.Sscan(fmt.Sprint(w["chunk_seed"]), &in.Chunk)
+	return in, true
 }
 
 func c10Clip(b []byte, n int) []byte {
